@@ -465,7 +465,7 @@ fn absorb(st: &mut Stats, ctx: &Ctx, idx: usize, h: &History, trace: &Trace, vs:
                     st.faults_not_reached += 1;
                     let prior = if i == 0 { "meta[absent] index[absent]".to_string() } else { trace.steps[i - 1].dir.class(ctx.side_b(trace.steps[i - 1].build).1) };
                     for f in &session.faults {
-                        if let Fault::Kill { point, .. } | Fault::Fail { point, .. } = f {
+                        if let Fault::Kill { point, .. } | Fault::Fail { point, .. } | Fault::FailKind { point, .. } = f {
                             st.cells_unreachable.insert(format!("{prior} x {point}"));
                         }
                     }
@@ -761,6 +761,10 @@ fn histories_for(ctx: &Ctx, o: &Opts, prop: &str, quick: bool) -> Vec<History> {
                 let seed = derive(o.seed, "C16-state", i as u64);
                 hs.push(gen::c16_state(ctx, tag, st, if quick { Perms::Identity } else { Perms::Reverse }, seed));
             }
+            for i in 0..n(6, 64) {
+                let seed = derive(o.seed, "C16-beside", i as u64);
+                hs.push(gen::c16_beside(ctx, &mut Rng::new(seed), seed));
+            }
             for i in 0..n(16, 300) {
                 let seed = derive(o.seed, "C16-threads", i as u64);
                 hs.push(gen::c16_threads(ctx, &mut Rng::new(seed), seed, if quick { 120 } else { 2000 }));
@@ -930,6 +934,15 @@ fn cmd_run(o: &Opts) -> i32 {
                 cells.push(gen::c15_cell(&ctx, tag, s, vec![Fault::Kill { point: p.clone(), k }], subset.clone(), seed));
                 if !quick || r.chance(1, 3) {
                     cells.push(gen::c15_cell(&ctx, tag, s, vec![Fault::Fail { point: p.clone(), k, interrupted: false }], subset.clone(), seed));
+                    // the same failure as a particular kind of I/O error (quick: three kinds at the first hit; thorough: all ten)
+                    if k == 0 || !quick {
+                        for (ki, kind) in gen::ERROR_KINDS.iter().enumerate() {
+                            if quick && ki >= 3 {
+                                break;
+                            }
+                            cells.push(gen::c15_cell(&ctx, tag, s, vec![Fault::FailKind { point: p.clone(), k, error: kind.to_string() }], subset.clone(), seed));
+                        }
+                    }
                 }
                 if p == "meta.write" {
                     cells.push(gen::c15_cell(&ctx, tag, s, vec![Fault::Fail { point: p.clone(), k, interrupted: true }], subset.clone(), seed));
@@ -966,12 +979,20 @@ fn cmd_run(o: &Opts) -> i32 {
             let sstates = gen::syscall_states(&ctx);
             let mut r = Rng::new(derive(o.seed, "C15-sys", 0));
             for (tag, s) in &sstates {
-                for (call, max, errno) in gen::syscall_sites() {
-                    if !inject_spec_ok(call, errno) {
+                for (call, max, errnos) in gen::syscall_errnos() {
+                    let errnos: Vec<&str> = errnos.into_iter().filter(|e| inject_spec_ok(call, e)).collect();
+                    if errnos.is_empty() {
                         continue;
                     }
                     for when in 1..=max {
-                        for errno in [None, Some(errno.to_string())] {
+                        // quick: one errno per occurrence, rotating; thorough: every errno
+                        let mut flavours: Vec<Option<String>> = vec![None];
+                        if quick {
+                            flavours.push(Some(errnos[when % errnos.len()].to_string()));
+                        } else {
+                            flavours.extend(errnos.iter().map(|e| Some(e.to_string())));
+                        }
+                        for errno in flavours {
                             // quick: a seeded sample keeps the injector exercised on every change (errnos
                             // 1 in 8; kills 1 in 30: they cannot use the cheap seccomp filter, and the
                             // hook-level kills already cover the repository's own steps)
